@@ -21,6 +21,8 @@ import Serif.Drive.C08
 import Serif.Drive.C09
 import Serif.Drive.C10
 import Serif.Drive.C11
+import Serif.Drive.C12
+import Serif.Drive.C13
 open Lean Serif.Wire
 
 def dispatch (p fam : String) (c impl : Json) : P Json :=
@@ -40,6 +42,8 @@ def dispatch (p fam : String) (c impl : Json) : P Json :=
   | "C09" => Serif.Drive.C09.handle fam c impl
   | "C10" => Serif.Drive.C10.handle fam c impl
   | "C11" => Serif.Drive.C11.handle fam c impl
+  | "C12" => Serif.Drive.C12.handle fam c impl
+  | "C13" => Serif.Drive.C13.handle fam c impl
   | _ => .error s!"unknown property {p}"
 
 def answer (line : String) : Json :=
